@@ -102,9 +102,10 @@ func loadConfig(filename string) (*tools.LCPPolicy2, error) {
 	for _, item := range s3 {
 		s3val += tools.PolicyControlMap[item]
 	}
-	// Fixed SHA256 use
+	// Placeholder digest: as many bytes as a digest of the chosen algorithm has,
+	// the rest of the field stays zero as in the serialised form.
 	var hash [32]byte
-	for iterator := range hash {
+	for iterator := 0; iterator < len(hash) && iterator < txt.HashMapping[config.HashAlg].Size(); iterator++ {
 		hash[iterator] = byte(iterator)
 	}
 	lcppol := tools.LCPPolicy2{
